@@ -127,7 +127,7 @@ def run_cid(vec, variant):
     try:
         cid.read("cid", rows)
     except errors.InterfaceError as error:
-        line = error.location.line + 1 if error.location is not None else 0
+        line = error.location.line + 1 if hasattr(error.location, "line") else 0
         return "error", line, None, None
     except Exception as error:  # noqa
         return "crash", 0, None, "%s: %s (rows %r)" % (type(error).__name__, error, rows)
